@@ -107,6 +107,21 @@ pub struct ControllerMetrics {
 pub trait ControllerFactory {
     /// Construct a fresh `Controller`
     fn build(self: Arc<Self>, now: Instant, current_mtu: u16) -> Box<dyn Controller>;
+
+    /// Construct a fresh `Controller` that derives any randomness it needs from `seed`
+    ///
+    /// Connections call this with a value drawn from their own seeded RNG, so that a connection's
+    /// behavior is a function of its inputs and seeds only. The default implementation ignores
+    /// `seed` and calls [`build`](Self::build).
+    fn build_seeded(
+        self: Arc<Self>,
+        now: Instant,
+        current_mtu: u16,
+        seed: u64,
+    ) -> Box<dyn Controller> {
+        let _ = seed;
+        self.build(now, current_mtu)
+    }
 }
 
 const BASE_DATAGRAM_SIZE: u64 = 1200;
